@@ -479,19 +479,35 @@ Definition ar_wrap_rule (r : ar_rule) : ar_rule :=
      ar_r_body := ar_r_body r; ar_r_parent := ar_r_parent r |}.
 
 (* ------------------------------------------------------------------ API queries (FilterUtility::GetFilterTargets) *)
-(* EvaluateFilter: namespace holds filter_vars, then obj / <type> / navigation fields are set over them *)
+(* EvaluateFilter: namespace holds filter_vars, then obj / <type> and every FANavigation field of the target's
+   type (value or null) are set over them.  The navigation field names in field-id order (checkable.ti,
+   service.ti; cross-checked against the regenerated source fact in Properties_C16.v); their values are an
+   input of the model ([navv], from the run) *)
+Definition ar_s_check_command : ar_str := [99; 104; 101; 99; 107; 95; 99; 111; 109; 109; 97; 110; 100].
+Definition ar_s_check_period : ar_str := [99; 104; 101; 99; 107; 95; 112; 101; 114; 105; 111; 100].
+Definition ar_s_event_command : ar_str := [101; 118; 101; 110; 116; 95; 99; 111; 109; 109; 97; 110; 100].
+Definition ar_s_command_endpoint : ar_str := [99; 111; 109; 109; 97; 110; 100; 95; 101; 110; 100; 112; 111; 105; 110; 116].
+Definition ar_nav_host : list ar_str := [ar_s_check_command; ar_s_check_period; ar_s_event_command; ar_s_command_endpoint].
+Definition ar_nav_service : list ar_str := ar_nav_host ++ [ar_s_host].
+Definition ar_nav_names (to_svc : bool) : list ar_str := if to_svc then ar_nav_service else ar_nav_host.
+
 Definition ar_api_bindings (t : ar_target) : list (ar_str * ar_value) :=
   match t with
   | ATHost h => [(ar_s_host, ar_host_val h); (ar_s_obj, ar_host_val h)]
   | ATSvc h s => [(ar_s_host, ar_host_val h); (ar_s_service, ar_svc_val s); (ar_s_obj, ar_svc_val s)]
   end.
+Definition ar_nav_bindings (navv : ar_target -> ar_str -> ar_value) (to_svc : bool) (t : ar_target) : list (ar_str * ar_value) :=
+  map (fun n => (n, navv t n)) (ar_nav_names to_svc).
+Definition ar_api_locals (navv : ar_target -> ar_str -> ar_value) (to_svc : bool) (t : ar_target)
+           (fvars : list (ar_str * ar_value)) : list (ar_str * ar_value) :=
+  ar_api_bindings t ++ ar_nav_bindings navv to_svc t ++ fvars.
 
 Definition ar_t_key (t : ar_target) : ar_str * ar_str := (ar_t_host t, ar_t_svc t).
 
-Definition ar_api_plain (genv : ar_env) (inv : list ar_host) (to_svc : bool) (fvars : list (ar_str * ar_value))
-           (f : ar_expr) : option (list (ar_str * ar_str)) :=
+Definition ar_api_plain (genv : ar_env) (navv : ar_target -> ar_str -> ar_value) (inv : list ar_host) (to_svc : bool)
+           (fvars : list (ar_str * ar_value)) (f : ar_expr) : option (list (ar_str * ar_str)) :=
   ar_collect (map (fun t =>
-                     match ar_truthy (ar_eval (ar_mk_env genv (ar_api_bindings t ++ fvars)) f) with
+                     match ar_truthy (ar_eval (ar_mk_env genv (ar_api_locals navv to_svc t fvars)) f) with
                      | None => None
                      | Some true => Some [ar_t_key t]
                      | Some false => Some []
@@ -506,21 +522,24 @@ Definition ar_find_full (inv : list ar_host) (to_svc : bool) (full : ar_str) : l
   | None => []
   end.
 
-(* filter_vars named obj/host/service are overwritten by EvaluateFilter: then no fast path
-   (filterutility.cpp: shadowedVars; variableName is empty for GetFilterTargets' default argument) *)
-Definition ar_api_vars_ok (fvars : list (ar_str * ar_value)) : bool :=
-  forallb (fun kv => negb (ar_is_target_var (fst kv) || ar_str_eqb (fst kv) ar_s_obj)) fvars.
+(* filter_vars named obj/host/service or like a navigation field of the target type are overwritten by
+   EvaluateFilter: then no fast path (filterutility.cpp: shadowedVars; variableName is empty for
+   GetFilterTargets' default argument) *)
+Definition ar_api_var_ok (to_svc : bool) (x : ar_str) : bool :=
+  negb (ar_is_target_var x || ar_str_eqb x ar_s_obj || ar_mem x (ar_nav_names to_svc)).
+Definition ar_api_vars_ok (to_svc : bool) (fvars : list (ar_str * ar_value)) : bool :=
+  forallb (fun kv => ar_api_var_ok to_svc (fst kv)) fvars.
 
-Definition ar_api_fast (genv : ar_env) (inv : list ar_host) (to_svc : bool) (fvars : list (ar_str * ar_value))
-           (f : ar_expr) : option (list (ar_str * ar_str)) :=
-  if negb (ar_api_vars_ok fvars) then ar_api_plain genv inv to_svc fvars f
+Definition ar_api_fast (genv : ar_env) (navv : ar_target -> ar_str -> ar_value) (inv : list ar_host) (to_svc : bool)
+           (fvars : list (ar_str * ar_value)) (f : ar_expr) : option (list (ar_str * ar_str)) :=
+  if negb (ar_api_vars_ok to_svc fvars) then ar_api_plain genv navv inv to_svc fvars f
   else if to_svc then
     match ar_target_services (Some fvars) f with
     | Some ps => Some (flat_map (fun p => ar_find_full inv true (fst p ++ ar_bang :: snd p)) ps)
-    | None => ar_api_plain genv inv to_svc fvars f
+    | None => ar_api_plain genv navv inv to_svc fvars f
     end
   else
     match ar_target_hosts (Some fvars) f with
     | Some ns => Some (flat_map (ar_find_full inv false) ns)
-    | None => ar_api_plain genv inv to_svc fvars f
+    | None => ar_api_plain genv navv inv to_svc fvars f
     end.
